@@ -323,8 +323,8 @@ Proof.
   intros Hc Hm Hp. rewrite step_bmeans, Hm, Hp. unfold means_spec, precs_spec.
   rewrite map_map, zip_with_map_same, zip_with_map_same.
   cbn [length]. rewrite (map_seq_S _ (S (length rvs))).
-  f_equal.
-  - rewrite map_seq_S. reflexivity.
+  apply (f_equal2 cons).
+  - cbn [seq map hd firstn]. reflexivity.
   - apply map_ext_in. intros k Hk. apply in_seq in Hk.
     cbn [firstn]. rewrite (post_mean_cons c v _ Hc).
     rewrite firstn_length_le by lia. reflexivity.
@@ -334,8 +334,8 @@ Lemma step_precs c s v n : cfg_ok c ->
   bprecs s = precs_spec c n -> bprecs (bocd_step c s v) = precs_spec c (S n).
 Proof.
   intros Hc Hp. rewrite step_bprecs, Hp. unfold precs_spec.
-  rewrite (map_seq_S _ (S n)). f_equal.
-  - rewrite map_seq_S. reflexivity.
+  rewrite (map_seq_S _ (S n)). apply (f_equal2 cons).
+  - cbn [seq map hd]. reflexivity.
   - rewrite map_map. apply map_ext. intros k. rewrite (post_prec_S c k Hc). reflexivity.
 Qed.
 
@@ -431,3 +431,267 @@ Proof.
   - apply binv_init, Hc.
   - rewrite brun_snoc, rev_unit. apply binv_step; assumption.
 Qed.
+
+(* ------------------------------------------------------------------ *)
+(** * Items 1-4: parameters, message, row, normalisation *)
+
+Lemma bocd_bn c vs : cfg_ok c -> bn (brun c vs) = Z.of_nat (length vs).
+Proof. intros Hc. destruct (binv_run c vs Hc) as (H & _). rewrite H, rev_length. reflexivity. Qed.
+
+(** 1. entry k (k = 0..t, entry 0 = the prior) of the parameter lists is the conjugate
+    posterior mean / precision of the k NEWEST values *)
+Theorem bocd_params c vs : cfg_ok c ->
+  bmeans (brun c vs) = map (fun k => post_mean c (firstn k (rev vs))) (seq 0 (S (length vs))) /\
+  bprecs (brun c vs) = map (post_prec c) (seq 0 (S (length vs))).
+Proof.
+  intros Hc. destruct (binv_run c vs Hc) as (_ & Hm & Hp & _).
+  rewrite Hm, Hp. unfold means_spec, precs_spec. rewrite rev_length. split; reflexivity.
+Qed.
+
+(** 2. the message is the UNNORMALISED log joint, and all joints are positive *)
+Theorem bocd_msg_is_ln_joint c vs : cfg_ok c ->
+  bmsg (brun c vs) = map ln (joint c (rev vs)) /\ Forall (fun j => 0 < j) (joint c (rev vs)).
+Proof.
+  intros Hc. destruct (binv_run c vs Hc) as (_ & _ & _ & Hmsg & _).
+  split; [exact Hmsg|apply joint_pos, Hc].
+Qed.
+
+Theorem bocd_row_is_ln_posterior c vs : cfg_ok c ->
+  brow (brun c vs) = map ln (posterior c (rev vs)) /\ Forall (fun p => 0 < p) (posterior c (rev vs)).
+Proof.
+  intros Hc. destruct (binv_run c vs Hc) as (_ & _ & _ & _ & Hrow).
+  split; [exact Hrow|apply posterior_pos, Hc].
+Qed.
+
+(** 3. exp of the row is the run-length posterior (also at t = 0: the row [0] = [ln 1]) *)
+Theorem bocd_row_is_posterior c vs : cfg_ok c ->
+  map exp (brow (brun c vs)) = posterior c (rev vs).
+Proof.
+  intros Hc. destruct (bocd_row_is_ln_posterior c vs Hc) as [-> Hpos]. apply map_exp_ln, Hpos.
+Qed.
+
+(** 4. every row sums to one *)
+Theorem bocd_row_normalised c vs : cfg_ok c -> Rsum (map exp (brow (brun c vs))) = 1.
+Proof. intros Hc. rewrite (bocd_row_is_posterior c vs Hc). apply posterior_sum, Hc. Qed.
+
+(* ------------------------------------------------------------------ *)
+(** * Item 5: the prediction is the posterior-weighted mixture *)
+
+Lemma zip_with_map_seq_r {X Y W} (f : X -> Y -> W) (a : list X) (g : nat -> Y) d :
+  zip_with f a (map g (seq 0 (length a))) = map (fun k => f (nth k a d) (g k)) (seq 0 (length a)).
+Proof.
+  revert g. induction a as [|x a IH]; intros g; [reflexivity|].
+  cbn [length]. rewrite !map_seq_S. cbn [zip_with nth]. f_equal. apply IH.
+Qed.
+
+Theorem bocd_prediction c vs : cfg_ok c -> vs <> [] ->
+  bpmean (brun c vs) =
+    Some (Rsum (map (fun k => nth k (posterior c (rev vs)) 0 * post_mean c (firstn k (rev vs)))
+                    (seq 0 (S (length vs))))) /\
+  bpvar (brun c vs) =
+    Some (Rsum (map (fun k => nth k (posterior c (rev vs)) 0 * (1 / post_prec c k + bo_data_var c))
+                    (seq 0 (S (length vs))))).
+Proof.
+  intros Hc Hne.
+  pose proof (bocd_row_is_posterior c vs Hc) as Hrow.
+  destruct (bocd_params c vs Hc) as [Hm Hp].
+  pose proof (posterior_length c (rev vs)) as HL. rewrite rev_length in HL.
+  destruct (exists_last Hne) as (vs' & v & ->).
+  rewrite brun_snoc in *. rewrite step_bpmean, step_bpvar, Hrow, Hm, Hp, map_map.
+  rewrite <- HL. rewrite !zip_with_map_seq_r with (d := 0). split; reflexivity.
+Qed.
+
+(** before any update nothing is predicted *)
+Lemma bocd_prediction_init c : bpmean (brun c []) = None /\ bpvar (brun c []) = None.
+Proof. split; reflexivity. Qed.
+
+(* ------------------------------------------------------------------ *)
+(** * Item 6: the verdict *)
+
+(** position of the first maximum of a list of reals (0 for the empty list), defined
+    independently of the model's left-to-right scan *)
+Fixpoint argmaxR (l : list R) : nat :=
+  match l with
+  | [] => 0%nat
+  | x :: r =>
+    match r with
+    | [] => 0%nat
+    | _ => let j := argmaxR r in if Rlt_dec x (nth j r 0) then S j else 0%nat
+    end
+  end.
+
+Lemma argmaxR_cons x y r :
+  argmaxR (x :: y :: r) = if Rlt_dec x (nth (argmaxR (y :: r)) (y :: r) 0) then S (argmaxR (y :: r)) else 0%nat.
+Proof. reflexivity. Qed.
+
+Lemma argmaxR_lt l : l <> [] -> (argmaxR l < length l)%nat.
+Proof.
+  induction l as [|x [|y r] IH]; intros Hne; [contradiction|cbn; lia|].
+  rewrite argmaxR_cons. specialize (IH ltac:(discriminate)).
+  destruct (Rlt_dec _ _); cbn [length] in *; lia.
+Qed.
+
+(** [argmaxR] really is the first position of a maximum *)
+Lemma argmaxR_spec l : l <> [] ->
+  let k := argmaxR l in
+  (k < length l)%nat /\
+  (forall j, (j < length l)%nat -> nth j l 0 <= nth k l 0) /\
+  (forall j, (j < k)%nat -> nth j l 0 < nth k l 0).
+Proof.
+  intros Hne k. split; [apply argmaxR_lt, Hne|]. subst k.
+  induction l as [|x [|y r] IH]; [contradiction| |].
+  - cbn. split; intros j Hj; [|lia]. destruct j; [lra|lia].
+  - specialize (IH ltac:(discriminate)). destruct IH as [IH1 IH2].
+    rewrite argmaxR_cons. set (k := argmaxR (y :: r)) in *. set (l := y :: r) in *.
+    destruct (Rlt_dec x (nth k l 0)) as [Hlt|Hge].
+    + split; intros j Hj.
+      * destruct j as [|j]; cbn [nth]; [lra|]. apply IH1. cbn [length] in Hj. lia.
+      * destruct j as [|j]; cbn [nth]; [lra|]. apply IH2. lia.
+    + split; intros j Hj; [|lia].
+      destruct j as [|j]; cbn [nth]; [lra|].
+      assert (nth j l 0 <= nth k l 0) by (apply IH1; cbn [length] in Hj; lia). lra.
+Qed.
+
+(** the first maximum is unique: any position with the same two properties is [argmaxR] *)
+Lemma argmaxR_unique l k : (k < length l)%nat ->
+  (forall j, (j < length l)%nat -> nth j l 0 <= nth k l 0) ->
+  (forall j, (j < k)%nat -> nth j l 0 < nth k l 0) ->
+  argmaxR l = k.
+Proof.
+  intros Hk Hmax Hfirst.
+  assert (Hne : l <> []) by (intros ->; cbn in Hk; lia).
+  destruct (argmaxR_spec l Hne) as (Ha & Hamax & Hafirst).
+  destruct (lt_eq_lt_dec (argmaxR l) k) as [[Hlt|Heq]|Hgt]; [|assumption|].
+  - specialize (Hfirst _ Hlt). specialize (Hamax _ Hk). lra.
+  - specialize (Hafirst _ Hgt). specialize (Hmax _ Ha). lra.
+Qed.
+
+(** the model's scan, in terms of [argmaxR] *)
+Lemma argmax_from_cons (x : R) (r : list R) (i bi : Z) (b : R) :
+  @argmax_from RealA (x :: r) i bi b =
+  if Rlt_dec b x then @argmax_from RealA r (i + 1) i x else @argmax_from RealA r (i + 1) bi b.
+Proof.
+  cbn [argmax_from]. change (@ltb RealA b x) with (Rltb b x). unfold Rltb.
+  destruct (Rlt_dec b x); reflexivity.
+Qed.
+
+Lemma argmax_from_spec (r : list R) (i bi : Z) (b : R) :
+  @argmax_from RealA r i bi b =
+  match r with
+  | [] => bi
+  | _ => if Rlt_dec b (nth (argmaxR r) r 0) then (i + Z.of_nat (argmaxR r))%Z else bi
+  end.
+Proof.
+  revert i bi b. induction r as [|x [|y r] IH]; intros i bi b; [reflexivity| |].
+  - rewrite argmax_from_cons. cbn [argmax_from argmaxR nth].
+    destruct (Rlt_dec b x); cbn; [lia|reflexivity].
+  - rewrite argmax_from_cons, argmaxR_cons.
+    set (l := y :: r) in *. set (k := argmaxR l) in *.
+    destruct (Rlt_dec b x) as [Hbx|Hbx].
+    + rewrite IH. unfold l at 1. fold l.
+      destruct (Rlt_dec x (nth k l 0)) as [Hx|Hx]; cbn [nth].
+      * destruct (Rlt_dec b (nth k l 0)); [lia|lra].
+      * destruct (Rlt_dec b x); [lia|lra].
+    + rewrite IH. unfold l at 1. fold l.
+      destruct (Rlt_dec x (nth k l 0)) as [Hx|Hx]; cbn [nth].
+      * destruct (Rlt_dec b (nth k l 0)); [lia|reflexivity].
+      * destruct (Rlt_dec b (nth k l 0)); [lra|]. destruct (Rlt_dec b x); [lra|reflexivity].
+Qed.
+
+Lemma argmax_argmaxR (l : list R) : @argmax RealA l = Z.of_nat (argmaxR l).
+Proof.
+  destruct l as [|x [|y r]]; [reflexivity|reflexivity|].
+  unfold argmax. rewrite argmax_from_spec. rewrite argmaxR_cons.
+  destruct (Rlt_dec _ _); lia.
+Qed.
+
+(** a strictly increasing map does not move the first maximum *)
+Lemma argmaxR_map_mono (f : R -> R) (l : list R) :
+  (forall a b, a < b <-> f a < f b) -> argmaxR (map f l) = argmaxR l.
+Proof.
+  intros Hf. induction l as [|x [|y r] IH]; [reflexivity|reflexivity|].
+  cbn [map] in *. rewrite !argmaxR_cons. rewrite IH.
+  set (k := argmaxR (y :: r)).
+  assert (Hk : (k < length (y :: r))%nat) by (apply argmaxR_lt; discriminate).
+  change (f y :: map f r) with (map f (y :: r)).
+  rewrite (nth_indep (map f (y :: r)) 0 (f 0)) by (rewrite map_length; exact Hk).
+  rewrite map_nth.
+  destruct (Rlt_dec x _) as [H|H], (Rlt_dec (f x) _) as [H'|H']; try reflexivity.
+  - apply Hf in H. contradiction.
+  - apply Hf in H'. contradiction.
+Qed.
+
+Lemma exp_mono_iff a b : a < b <-> exp a < exp b.
+Proof. split; [apply exp_increasing|apply exp_lt_inv]. Qed.
+
+(** the model's arg-max on the log row is the first arg-max of the posterior *)
+Lemma bocd_argmax_row c vs : cfg_ok c ->
+  @argmax RealA (brow (brun c vs)) = Z.of_nat (argmaxR (posterior c (rev vs))).
+Proof.
+  intros Hc. rewrite argmax_argmaxR. rewrite <- (bocd_row_is_posterior c vs Hc).
+  rewrite (argmaxR_map_mono exp _ exp_mono_iff). reflexivity.
+Qed.
+
+(** before min_num_instances the flag keeps its initial value *)
+Theorem bocd_no_drift_before_min c vs : cfg_ok c ->
+  (Z.of_nat (length vs) < bo_min c)%Z -> bdrift (brun c vs) = false.
+Proof.
+  intros Hc. induction vs as [|v vs IH] using rev_ind; intros Hlt; [reflexivity|].
+  rewrite brun_snoc, step_bdrift, (bocd_bn c vs Hc).
+  rewrite app_length in Hlt. cbn [length] in Hlt.
+  destruct (Z.leb_spec (bo_min c) (Z.of_nat (length vs) + 1)) as [H|H]; [lia|].
+  apply IH. lia.
+Qed.
+
+(** 6. from min_num_instances on, drift <-> the most probable run length (first maximum of
+    the posterior) is not t *)
+Theorem bocd_verdict c vs : cfg_ok c ->
+  (bo_min c <= Z.of_nat (length vs))%Z ->
+  (bdrift (brun c vs) = true <-> argmaxR (posterior c (rev vs)) <> length vs).
+Proof.
+  intros Hc Hmin.
+  destruct vs as [|a vs0].
+  { unfold posterior. cbn [rev joint map argmaxR length brun fold_left bocd_init bdrift].
+    split; [discriminate|]. intros H. exfalso. apply H. reflexivity. }
+  assert (Hne : a :: vs0 <> []) by discriminate. revert Hne Hmin. generalize (a :: vs0) as vs.
+  clear a vs0. intros vs Hne Hmin.
+  pose proof (bocd_argmax_row c vs Hc) as Harg.
+  destruct (exists_last Hne) as (vs' & v & ->).
+  rewrite brun_snoc in *. rewrite step_bdrift, (bocd_bn c vs' Hc), Harg.
+  rewrite app_length in *. cbn [length] in *.
+  destruct (Z.leb_spec (bo_min c) (Z.of_nat (length vs') + 1)) as [H|H]; [|lia].
+  rewrite negb_true_iff, Z.eqb_neq. lia.
+Qed.
+
+(** the same verdict without the arg-max vocabulary: no drift exactly when run length t
+    (no change since the start) is strictly more probable than every shorter run length *)
+Corollary bocd_verdict_explicit c vs : cfg_ok c ->
+  (bo_min c <= Z.of_nat (length vs))%Z ->
+  (bdrift (brun c vs) = false <->
+   forall k, (k < length vs)%nat ->
+     nth k (posterior c (rev vs)) 0 < nth (length vs) (posterior c (rev vs)) 0).
+Proof.
+  intros Hc Hmin. pose proof (bocd_verdict c vs Hc Hmin) as HV.
+  pose proof (posterior_length c (rev vs)) as HL. rewrite rev_length in HL.
+  assert (HPne : posterior c (rev vs) <> []) by (intros E; rewrite E in HL; discriminate).
+  destruct (argmaxR_spec _ HPne) as (Ha & Hamax & Hafirst).
+  split.
+  - intros Hd k Hk.
+    assert (E : argmaxR (posterior c (rev vs)) = length vs).
+    { destruct (Nat.eq_dec (argmaxR (posterior c (rev vs))) (length vs)) as [E|E]; [exact E|].
+      apply HV in E. rewrite E in Hd. discriminate. }
+    rewrite E in Hafirst. apply Hafirst, Hk.
+  - intros Hall. destruct (bdrift (brun c vs)) eqn:Hd; [|reflexivity].
+    exfalso. apply (proj1 HV); [reflexivity|].
+    apply argmaxR_unique; [lia| |exact Hall].
+    intros j Hj. rewrite HL in Hj.
+    destruct (Nat.eq_dec j (length vs)) as [->|Hneq]; [lra|].
+    left. apply Hall. lia.
+Qed.
+
+(** non-vacuity of [cfg_ok]: the default configuration of the library *)
+Definition cfg_default : bocd_cfg RealA :=
+  {| bo_prior_mean := 0; bo_prior_var := 1; bo_data_var := 1; bo_hazard := 1 / 100;
+     bo_min := 30; bo_ln_sqrt_2pi := ln (sqrt (2 * PI)) |}.
+Lemma cfg_default_ok : cfg_ok cfg_default.
+Proof. unfold cfg_ok, cfg_default. cbn. repeat split; lra. Qed.
